@@ -109,21 +109,28 @@ def _api(R, unit, only, tier="quick"):
         outs = ("dense", "sparse", "pixels", "pixels+join") if tier == "thorough" else \
             (("dense", "sparse", "pixels+join") if mask % 2 == 0 else ("dense", "pixels", "pixels+join"))
         kk = 0
+        # ALL selectors are taken from the one Cooler object first and queried afterwards: a selector keeps the options it was made with
+        sels = {}
+        for bal, div in combos:
+            for out in outs:
+                kw = dict(balance=bal, divisive_weights=div)
+                if out == "sparse":
+                    kw["sparse"] = True
+                elif out.startswith("pixels"):
+                    kw["as_pixels"] = True
+                    kw["join"] = out == "pixels+join"
+                try:
+                    sels[(bal, div, out)] = clr.matrix(**kw)
+                except Exception as e:
+                    sels[(bal, div, out)] = e
         for bal, div in combos:
             name = "weight" if bal is True else bal
             if True:
                 g = g_of(name, div)
                 for out in outs:
-                    kw = dict(balance=bal, divisive_weights=div)
-                    if out == "sparse":
-                        kw["sparse"] = True
-                    elif out.startswith("pixels"):
-                        kw["as_pixels"] = True
-                        kw["join"] = out == "pixels+join"
-                    try:
-                        sel = clr.matrix(**kw)
-                    except Exception as e:
-                        R.mismatch("selector-raises:" + type(e).__name__, {"bal": bal, "div": div, "out": out}, f"{e!s:.200}")
+                    sel = sels[(bal, div, out)]
+                    if isinstance(sel, Exception):
+                        R.mismatch("selector-raises:" + type(sel).__name__, {"bal": bal, "div": div, "out": out}, f"{sel!s:.200}")
                         continue
                     for (i0, i1) in wins:
                         for (j0, j1) in wins:
